@@ -4,6 +4,7 @@ package interp
 // symbolic indices, general equality terms, run-time panic bookkeeping.
 
 import (
+	"os"
 	"fmt"
 	"go/types"
 
@@ -155,6 +156,9 @@ func (r *pathRun) noteRuntimePanic(fr *frame, p any) {
 		pos = targetStack(fr)
 	}
 	r.rtPanics = append(r.rtPanics, pos+": "+msg)
+	if os.Getenv("VP_NOTES") != "" {
+		fmt.Fprintf(os.Stderr, "note: run-time panic: %s in %s\n", msg, pos)
+	}
 }
 
 // inBounds is the term 0 <= idx < n, computed at 64 bits so that n always fits.
